@@ -57,9 +57,11 @@ def addressDecodeChars (s : List Char) : Except String (List UInt8) :=
   if up.take 4 ≠ logoUpper then .error "InvalidAddress"
   else
     let full := decode (up.drop 4)
-    if full.isEmpty then .ok (List.replicate 20 0)
-    else if checkSum full.dropLast ≠ full.getLast! then .error "InvalidAddressChecksum"
-    else .ok (setBytes full.dropLast)
+    match full.getLast? with
+    | none => .ok (List.replicate 20 0)           -- length 0: `a.SetBytes(nil)`
+    | some cs =>
+      if checkSum full.dropLast ≠ cs then .error "InvalidAddressChecksum"
+      else .ok (setBytes full.dropLast)
 
 def addressString (a : List UInt8) : String := String.ofList (addressChars a)
 def addressDecode (s : String) : Except String (List UInt8) := addressDecodeChars s.toList
